@@ -139,6 +139,50 @@ class C05(Cfg):
         return "CUTALL:len<%d:bad=%s" % (50 * (n // 50 + 1), "0" if mm.group(2) == "0" else ">0")
 
 
+class C11(Cfg):
+    rule = ("FIBEXDOC: generated models over the full vocabulary (16 S_* names, 18 base types incl. unknown, custom signals "
+            "through codings, redefinitions), shuffled element order, permuted sequence numbers incl. ties and descending, "
+            "duplicate PDU / frame ids, 1..4 files, missing optional parts, dangling references, names needing XML escapes; "
+            "compact rendering (the Spec's render must equal quick-xml's events) and pretty rendering (whitespace, comments, "
+            "unrelated elements); 4 lookups each with / without extended header; non-trivial = at least one frame loaded; "
+            "distinct by request")
+    observable = "canonical sorted metadata (keyed map and id map with every field) or none, and the lookup results"
+    explanation = ("C11_load (loader on rendered documents = Spec.model), C11_sorted (stable sort by sequence number), "
+                   "C11_first_pdu_wins, C11_unknown_signal_skipped, C11_unknown_pdu_fails, C11_files_irrelevant, C11_lookup; "
+                   "the run loads real XML files with gather_fibex_data, feeds quick-xml's event dump of the same files to the "
+                   "model, and evaluates Spec.model on the abstract documents")
+    assumptions = COMMON_ASSUME + ["quick-xml 0.29 tokenizer / unescaping trusted: the model consumes its event dump "
+                                   "(element names reduced to the matched vocabulary by the harness)"]
+
+    def nontrivial(self, req, ans, m=None):
+        return ans.startswith("MD") and " I 0 " not in ans
+
+    def classify(self, req, ans, m=None):
+        t = ans.split()
+        return "FIBEXDOC:%s:%s" % (req.split()[1], " ".join(t[:3]) if t[0] == "MD" else t[0])
+
+    def spec_ok(self, req, ans, spec):
+        return ans == spec
+
+
+class C12(Cfg):
+    rule = ("FIBEX: the two repository documents and generated ones (compact and pretty) x truncation offsets (every 3rd / "
+            "37th byte quick, every byte thorough) x deletion of elements / attributes / required tags x byte corruptions "
+            "('<' '>' '\"' '&' NUL 0xFF ...), insertions; missing path, empty file, no path, intact + damaged pairs; every load "
+            "runs under a 10 s watchdog; non-trivial = file non-empty; distinct by request")
+    observable = "returned(model | none) | HANG | PANIC; for returned models the canonical metadata"
+    explanation = ("C12_total (model or refusal, never panic, for all event lists), C12_consumes, C12_eof_in_pdu/frame, "
+                   "C12_keyMatches_total; termination of every loader loop is Lean's own termination check. Partial: "
+                   "promptness, quick-xml on arbitrary bytes and library panics are observed under the watchdog, not proved")
+    assumptions = C11.assumptions
+
+    def nontrivial(self, req, ans, m=None):
+        return " + x" in req and " + x " not in req
+
+    def classify(self, req, ans, m=None):
+        return "FIBEX:" + ans.split(" ", 1)[0]
+
+
 class C13(Cfg):
     rule = ("NVA <order> <types> <payload>: every kind (and pair of kinds) x both byte orders x every truncation point "
             "(exhaustive for lists of length 1 and 2), random lists of 0..8 types with exact, short, over-long and "
@@ -254,6 +298,30 @@ class C19(Cfg):
         return "ZTS:" + " ".join(ans.split()[:2])
 
 
+class C06(Cfg):
+    rule = ("FWD <bytes> (strings rich in pattern fragments: partial patterns at the end, overlapping starts 44 4C 44 4C 54 01, "
+            "pattern at 0, several patterns, none), JUNK <junk> <message> <suffix> (junk of 0..40 bytes without an occurrence "
+            "starting inside it, incl. lone 'D's and pattern fragments), STREAM of 1..6 messages with junk between; "
+            "non-trivial = pattern present / junk non-empty; distinct by request")
+    observable = "(offset | none, remainder length) / (same parse as without junk?, class) / (messages recovered, all equal?)"
+    explanation = ("C06_search_some/none (first occurrence, exactly), C06_junk, C06_noD_junk, C06_no_border, C06_stream "
+                   "(parseAll recovers all messages in order); Spec oracle for the search = index-based first occurrence")
+
+    def nontrivial(self, req, ans, m=None):
+        t = req.split()
+        if t[0] == "FWD":
+            return ans.startswith("some")
+        if t[0] == "JUNK":
+            return hexlen(t[1]) > 0
+        return True
+
+    def classify(self, req, ans, m=None):
+        return req.split(" ", 1)[0] + ":" + ans.split(" ", 1)[0]
+
+    def spec_ok(self, req, ans, spec):
+        return not req.startswith("FWD") or ans == spec
+
+
 class C07(Cfg):
     rule = ("READ <storage> <filter> <schedule> <stream>: streams of 0..5 well-formed messages (some mutated), truncations at "
             "arbitrary offsets, hostile LEN (0..5, 65535), noise; schedules: all-at-once, 1 byte at a time, random chunk "
@@ -332,7 +400,7 @@ class C10(Cfg):
         return re.sub(r" n=\d+$", "", spec) == ans
 
 
-REGISTRY = {c.__name__: c for c in (C01, C03, C04, C05, C07, C08, C09, C10, C13, C14, C15, C16, C17, C18, C19)}
+REGISTRY = {c.__name__: c for c in (C01, C03, C04, C05, C06, C11, C12, C07, C08, C09, C10, C13, C14, C15, C16, C17, C18, C19)}
 
 
 def get(prop):
